@@ -692,7 +692,7 @@ fn check_result(w: &mut World, op: &'static str, res: &Res, was_live: bool, io_e
             w.expect = expect;
             return;
         }
-        if matches!(expect, Some(Expect::MaybeReject(_))) {
+        if matches!(expect, Some(Expect::MaybeReject(_)) | Some(Expect::MaybeInvalid)) {
             return;
         }
         if let Some(e) = expect {
@@ -713,6 +713,11 @@ fn check_result(w: &mut World, op: &'static str, res: &Res, was_live: bool, io_e
                     format!("failure-code-not-surfaced/op={op}"),
                     format!("{op} consumed an acknowledgement with reason {code:#x} but returned {}", res.name()),
                 );
+            }
+        }
+        Some(Expect::MaybeInvalid) => {
+            if !matches!(res, Res::InvalidPacket) && !res.is_fatal() {
+                w.probe("second_connack_ignored");
             }
         }
         Some(Expect::MaybeReject(code)) => {
@@ -1050,6 +1055,17 @@ pub fn do_publish(conn: &mut Conn<'_, '_>, spec: &PubSpec) -> Res {
             Some(Err(PubError::Session(e))) => map_err(e),
         }
     };
+    // C17: with nothing in flight (the client's own view) there is no window to be full and the
+    // arena is empty: a publish cannot be "not ready" (tiny arenas answer BufferTooSmall)
+    if res == Res::NotReady && was_live && conn.is_connected() && quiescent_before && with(|w| w.cfg.tx_len >= 16) {
+        with(|w| {
+            w.violate(
+                "C17",
+                "not-ready-although-nothing-is-in-flight".into(),
+                format!("publish (QoS {}) returned NotReady on a publish-quiescent session: capacity that was released has not been recovered", spec.qos),
+            )
+        });
+    }
     // A publish that is refused locally leaves nothing behind: what the session accepts next is
     // what it accepted before (publish() never reads, so no acknowledgement can have changed it).
     if matches!(res, Res::InvalidRequest | Res::NotReady | Res::PacketTooLarge | Res::BufferTooSmall | Res::Payload | Res::InflightExhausted) && was_live && conn.is_connected() {
